@@ -88,6 +88,22 @@ class Transformer(Visitor):
         self.inplace = inplace
         self.rebuild_scopes = rebuild_scopes
 
+    def _invalidate_source(self, source, children):
+        """
+        Utility method to determine the :data:`source` of a node that is
+        rebuilt or updated with the provided children.
+
+        If :data:`invalidate_source` is `True` and any of the children has
+        been invalidated, a copy of :data:`source` that is marked as invalid
+        is returned, otherwise :data:`source` itself.
+        """
+        if self.invalidate_source and is_source_valid(source):
+            # If any child node has been invalidated, mark this node as invalid too
+            if any(isinstance(c, Node) and not is_source_valid(c) for c in flatten(children)):
+                source = source.clone()
+                source.invalidate(children=True)
+        return source
+
     def _rebuild(self, o, children, **args):
         """
         Utility method to rebuild the given node with the provided children.
@@ -97,12 +113,8 @@ class Transformer(Visitor):
         """
         args_frozen = o.args_frozen
         args_frozen.update(args)
-        if self.invalidate_source and 'source' in args_frozen:
-            # If any child node has been invalidated, mark this node as invalid too
-            if is_source_valid(args_frozen.get('source')):
-                if any(isinstance(c, Node) and not is_source_valid(c) for c in flatten(children)):
-                    args_frozen['source'] = args_frozen['source'].clone()
-                    args_frozen['source'].invalidate(children=True)
+        if 'source' in args_frozen:
+            args_frozen['source'] = self._invalidate_source(args_frozen['source'], children)
 
         if self.inplace:
             # Updated nodes in place, if requested
@@ -232,7 +244,7 @@ class Transformer(Visitor):
         rebuilt = tuple(self.visit(i, **kwargs) for i in o.children)
 
         # Update in-place the node with rebuilt children
-        o._update(*rebuilt)
+        o._update(*rebuilt, source=self._invalidate_source(o.source, rebuilt))
         return o
 
     def visit(self, o, *args, **kwargs):
@@ -355,7 +367,7 @@ class NestedTransformer(Transformer):
             else:
                 o._update(*extended)
             return o
-        handle._update(*rebuilt)
+        handle._update(*rebuilt, source=self._invalidate_source(handle.source, rebuilt))
         return handle
 
 
@@ -497,7 +509,7 @@ class MaskedTransformer(Transformer):
 
         # Update rebuilt node
         if kwargs['parent_active']:
-            o._update(*rebuilt)
+            o._update(*rebuilt, source=self._invalidate_source(o.source, rebuilt))
             return o
         return tuple(i for i in rebuilt if i is not None) or None
 
